@@ -53,10 +53,10 @@ MANIFEST = dict(
          "Axioms: the proofs use none; 29 theorems are Closed under the global context, the 14 whose statement mentions a "
          "builtin that renders an error payload (fail_cell -> Heap.get_as_cell -> Datum.display -> NumFmt.num_display) "
          "inherit the standard-library real-number axioms (sig_not_dec, sig_forall_dec, functional_extensionality_dep, "
-         "classic) from the Flocq-based definition of num_display in the shared number-formatting model. OPEN (visible in Props/C14.v, not claimed): "
-         "memq memv member assq assv assoc map for-each caar cdar cddr of Model/PreludeLists.v have no theorem; that "
-         "file is a HAND model of prelude.scm:147-258 validated by the correspondence and the reference oracle only "
-         "(list, length, cadr have theorems about the hand model, in a labelled section). equal_spec assumes "
+         "classic) from the Flocq-based definition of num_display in the shared number-formatting model. Model/PreludeLists.v is a HAND model of "
+         "prelude.scm:147-258 validated by the correspondence and the reference oracle; about it: list, length, cadr, member, assoc (first "
+         "tail / first pair whose car is equal? to the key, or #f), memv/memq/assv/assq (against the machine's own eqv? decision) have "
+         "theorems; map for-each caar cdar cddr have none. equal_spec assumes "
          "interned symbols (C18). eq?/eqv? on distinct pairs with identical field cells / on equal strings are pinned to "
          "#t by the suite and not claimed. Circular data (length, equal?, display, error rendering) is C06's.",
     technique="Rocq/Coq proof (refinement to an abstract store, invariants, induction over finite chains) + "
